@@ -22,7 +22,7 @@ func TestMain(m *testing.M) { stat.Main(m) }
 var pMinusN = new(big.Int).Sub(ref.P, ref.N)
 
 func propRecover(t *rapid.T) {
-	rsrc := rapid.SampledFrom([]string{"x-of-point", "x-of-point", "x-of-point", "x>=n-point", "x>=n-point", "small-r", "r<p-n", "r>=p-n", "non-coordinate", "raw", "zero"}).Draw(t, "rsrc")
+	rsrc := gen.Sampled([]string{"x-of-point", "x-of-point", "x-of-point", "x>=n-point", "x>=n-point", "small-r", "r<p-n", "r>=p-n", "non-coordinate", "raw", "zero"}).Draw(t, "rsrc")
 	var r *big.Int
 	var R ref.Pt
 	haveR := false
@@ -61,11 +61,18 @@ func propRecover(t *rapid.T) {
 	s := gen.SSpecial(t, "s")
 	if rapid.IntRange(0, 30).Draw(t, "s0") == 0 {
 		s = big.NewInt(0)
+	} else if r.Sign() != 0 && rapid.IntRange(0, 3).Draw(t, "glv-u2") == 0 {
+		// recovery multiplies R by u2 = s/r with the variable-time GLV routine: put u2 at the
+		// decomposition's rare corners and solve for s
+		if u2, _ := gen.GLVScalar(t, "u2"); u2.Sign() != 0 {
+			s = ref.MulM(u2, r, ref.N)
+			rsrc += "+u2-glv-steered"
+		}
 	}
-	dlen := rapid.SampledFrom([]int{32, 32, 32, 32, 32, 32, 40, 48, 64, 64, 31, 0}).Draw(t, "dlen")
+	dlen := gen.Sampled([]int{32, 32, 32, 32, 32, 32, 40, 48, 64, 64, 31, 0}).Draw(t, "dlen")
 	digest := gen.Bytes(t, dlen, dlen, "digest")
 	if dlen >= 32 {
-		switch rapid.SampledFrom([]string{"random", "random", "random", "random", "e=0", "e>=n", "e>=n", "Q=O"}).Draw(t, "ekind") {
+		switch gen.Sampled([]string{"random", "random", "random", "random", "e=0", "e>=n", "e>=n", "Q=O"}).Draw(t, "ekind") {
 		case "e=0":
 			copy(digest, make([]byte, 32))
 		case "e>=n":
@@ -149,7 +156,7 @@ func TestC11_Recover(t *testing.T) { rapid.Check(t, propRecover) }
 // recovers the signer and no other id does.
 func propSignThenRecover(t *rapid.T) {
 	d := gen.NonZero256(t, ref.N, "d")
-	dlen := rapid.SampledFrom([]int{32, 32, 48, 64}).Draw(t, "dlen")
+	dlen := gen.Sampled([]int{32, 32, 48, 64}).Draw(t, "dlen")
 	digest := gen.Bytes(t, dlen, dlen, "digest")
 	rd := gen.Reader(t, 32, "rng")
 	key := lib.PrivKey(d)
